@@ -745,3 +745,62 @@ Section Inversion.
     = @F_spec ROps (@inv_P ROps objs) inv_matrix_spec noise (@inv_noreg ROps objs) value.
   Proof. intros Hp. unfold inv_curvature. rewrite inv_operated_spec. apply curvature_matrix_spec; [exact Hp|apply inv_noreg_bound]. Qed.
 End Inversion.
+
+(* ------------------------------------------------------------------ statements as exported by Props/C13.v (with their shape guards) *)
+Lemma T_visibilities_formula (img : list R) (grid uv : list (R * R)) : length img = length grid ->
+  @visibilities_jit ROps img grid uv = @dft_spec ROps img grid uv.
+Proof. intros _. apply visibilities_formula. Qed.
+Lemma T_preload_equivalent (img : list R) (grid uv : list (R * R)) : length img = length grid ->
+  @visibilities_via_preload ROps (length uv) img (@preload_real ROps grid uv) (@preload_imag ROps grid uv)
+  = @visibilities_jit ROps img grid uv.
+Proof. intros _. apply preload_equivalent. Qed.
+Lemma T_via_preload_any_tables K (img : list R) (preR preI : list (list R)) :
+  length img = length preR -> rectn K preR = true -> rectn K preI = true -> length preI = length preR ->
+  @visibilities_via_preload ROps K img preR preI = @tab_spec ROps K img preR preI.
+Proof. intros _ HR HI _. apply via_preload_tab_spec; assumption. Qed.
+Lemma T_image_is_real_part_of_adjoint (grid uv vis : list (R * R)) : length vis = length uv ->
+  @image_via ROps (length grid) grid uv vis = Ok (@adjoint_re_spec ROps grid uv vis).
+Proof. intros _. apply image_is_adjoint. Qed.
+Lemma T_image_prefix n (grid uv vis : list (R * R)) : length vis = length uv -> (n <= length grid)%nat ->
+  @image_via ROps n grid uv vis = Ok (@adjoint_re_spec ROps (firstn n grid) uv vis).
+Proof. intros _. apply image_via_prefix. Qed.
+Lemma T_adjoint_identity (img : list R) (grid uv vis : list (R * R)) : length img = length grid -> length vis = length uv ->
+  sumR (map (fun wv : (R * R) * (R * R) => fst (fst wv) * fst (snd wv) + snd (fst wv) * snd (snd wv))
+            (combine (@dft_spec ROps img grid uv) vis))
+  = sumR (map (fun xi : R * R => fst xi * snd xi) (combine (@adjoint_re_spec ROps grid uv vis) img)).
+Proof. intros _ _. apply adjoint_identity. Qed.
+Lemma T_mapping_matrix_is_operator_on_columns P (M : list (list R)) (grid uv : list (R * R)) :
+  length M = length grid -> rectn P M = true ->
+  @tmm_jit ROps P M grid uv = @tmm_spec ROps P M grid uv /\
+  @tmm_via_preload ROps (length uv) P M (@preload_real ROps grid uv) (@preload_imag ROps grid uv) = @tmm_spec ROps P M grid uv /\
+  forall j, (j < P)%nat ->
+    map (fun row => nth j row (@czero ROps)) (@tmm_spec ROps P M grid uv) = @dft_spec ROps (@column ROps M j) grid uv.
+Proof. intros _ _. split; [apply tmm_jit_spec|]. split; [apply tmm_preload_spec|]. intros j Hj. apply tmm_spec_column, Hj. Qed.
+Lemma T_mapping_matrix_via_any_tables K P (M preR preI : list (list R)) j :
+  length M = length preR -> rectn P M = true -> rectn K preR = true -> rectn K preI = true -> (j < P)%nat ->
+  map (fun row => nth j row (@czero ROps)) (@tmm_via_preload ROps K P M preR preI)
+  = @tab_spec ROps K (@column ROps M j) preR preI.
+Proof. intros _ _ HR HI Hj. rewrite tmm_via_preload_column by assumption. apply via_preload_tab_spec; assumption. Qed.
+Lemma T_data_vector (P : nat) (TM : list (list (R * R))) (vis noise : list (R * R)) :
+  rectn P TM = true -> length vis = length TM -> length noise = length TM -> @noise_pos ROps noise = true ->
+  @data_vector ROps P TM vis noise = @D_spec ROps P TM vis noise.
+Proof. intros H _ _ _. apply data_vector_spec, H. Qed.
+Lemma T_curvature_matrix P (TM : list (list (R * R))) (noise : list (R * R)) (noreg : list nat) (value : R) :
+  rectn P TM = true -> length noise = length TM -> @noise_pos ROps noise = true -> Forall (fun i => (i < P)%nat) noreg ->
+  @curvature_matrix ROps P TM noise noreg value = @F_spec ROps P TM noise noreg value.
+Proof. intros _ _. apply curvature_matrix_spec. Qed.
+Lemma T_reconstructed_visibilities (TM : list (list (R * R))) (s : list R) : rectn (length s) TM = true ->
+  @recon_visibilities ROps TM s = @recon_spec ROps TM s.
+Proof. intros _. apply recon_is_matvec. Qed.
+Lemma T_inversion pi_ (G : @geom ROps) uv preload (objs : list (nat * list (list R) * bool)) (data noise : list (R * R)) value :
+  rectn (Wn (g_mask G)) (g_mask G) = true -> @scales_ok ROps (g_sy G) (g_sx G) = true ->
+  @noise_pos ROps noise = true -> length data = length uv -> length noise = length uv ->
+  @inv_operated ROps pi_ G uv preload objs = inv_matrix_spec pi_ G uv objs /\
+  @inv_data_vector ROps pi_ G uv preload objs data noise = @D_spec ROps (@inv_P ROps objs) (inv_matrix_spec pi_ G uv objs) data noise /\
+  @inv_curvature ROps pi_ G uv preload objs noise value
+    = @F_spec ROps (@inv_P ROps objs) (inv_matrix_spec pi_ G uv objs) noise (@inv_noreg ROps objs) value.
+Proof.
+  intros Hr Hs Hp _ _. split; [apply inv_operated_spec; assumption|]. split.
+  - apply inv_data_vector_spec; assumption.
+  - apply inv_curvature_spec; assumption.
+Qed.
